@@ -259,6 +259,7 @@ void exec_case(const Case &c) {
         probe_phase = false;
     }
     vsched::end();
+    if (vsched::spurious_wakeups()) label("spurious_wakeup");
     { std::string w = "W"; for (uint8_t x : vsched::widths()) w += (char)('0' + (x > 9 ? 9 : x)); aux(w); }
 
     // C03: X was parked inside lock*() before Y was called, not both reads  =>  X returned first
